@@ -163,3 +163,22 @@ def decCbRect (bw bh cbw cbh cbx cby : Int) : Int × Int × Int × Int :=
 /-- `numCBX := (width + cbWidth - 1) / cbWidth` on both sides -/
 def numCb (n c : Int) : Int := Int.tdiv (n + c - 1) c
 end J2k
+
+namespace J2k
+/-- t2/packet_decoder.go buildResolutionPrecinctOrder: number of precinct columns of a resolution with canvas origin
+    `resX0` and width `resW`: `startX := floorDiv(resX0,pw)*pw; endX := ceilDiv(resX0+resW,pw)*pw;
+    numPrecinctX := (endX-startX)/pw; if numPrecinctX < 1 { numPrecinctX = 1 }` -/
+def decNumPrecinct (resX0 resW pw : Int) : Int :=
+  let startX := Gen.J2kT2.floorDiv resX0 pw * pw
+  let endX := Gen.J2kT2.ceilDiv (resX0 + resW) pw * pw
+  let n := Int.tdiv (endX - startX) pw
+  if n < 1 then 1 else n
+
+/-- encoder.go buildTilePacketEncoder (live code since 104b234): `startX := (originX/pw)*pw;
+    endX := ((originX+resW+pw-1)/pw)*pw; numPrecinctX := (endX-startX)/pw; if numPrecinctX < 1 { … = 1 }` -/
+def encNumPrecinct (originX resW pw : Int) : Int :=
+  let startX := Int.tdiv originX pw * pw
+  let endX := Int.tdiv (originX + resW + pw - 1) pw * pw
+  let n := Int.tdiv (endX - startX) pw
+  if n < 1 then 1 else n
+end J2k
